@@ -170,7 +170,7 @@ pub fn run(run: &Run) {
         "programs of the C06 operator table (a slice), the C06 control-flow sweep and the C07 table \
          and merging sweeps; for each program every value budget 0..=Pv and every degree budget \
          0..=Pd (Pv, Pd = passes to the fix-point, learned with an unlimited budget); states = \
-         (program, kind, cut index), transitions = propagation passes executed; non-trivial = the \
+         (program, kind, cut index), transitions = propagation passes executed; thorough also runs the production binary on a template large enough for the real ten-second time box to fire; non-trivial = the \
          fix-point needs at least two passes",
     );
     let (_, p) = real_primes().into_iter().next().unwrap();
@@ -244,13 +244,73 @@ pub fn run(run: &Run) {
             }
         }
     });
+    // The production time box itself (thorough): a template large enough for both propagation
+    // loops to exceed their ten seconds must still end with a summary line. The hook stops the
+    // loops next to the elapsed-time test; this run takes the real exit.
+    if run.tier == Tier::Thorough {
+        run.idle();
+        for n in [6000usize, 12000] {
+            let case = json!({"kind": "real-time-box", "statements": n});
+            run.eval(1);
+            run.nontrivial(1);
+            let (vs, fired) = check_real_time_box(n, &case);
+            run.outcome(&format!("real-time-box:n={n}:fired={fired}"));
+            run.set_extra("real_time_box", json!({"statements": n, "fired": fired}));
+            run.violations(vs);
+            if fired {
+                break;
+            }
+            if n == 12000 {
+                run.cap("the real time box did not fire on a 12000-statement template (machine too fast); only the hook path was explored");
+            }
+        }
+    }
     if run.tier == Tier::Quick {
         run.assume("quick tier explores a slice of the operator tables (every 9th / 5th program); thorough explores every 2nd / every program");
     }
     run.assume("budget 0 (no pass at all) is included although the real time box can only fire after a pass");
 }
 
+/// Runs the production binary on a template with `n` dependent assignments. Returns the
+/// violations and whether the time box fired (debug log line).
+pub fn check_real_time_box(n: usize, case: &Value) -> (Vec<Violation>, bool) {
+    let dir = crate::infra::work_dir("c20-timebox");
+    let mut src = String::from("pragma circom 2.0.0;\ntemplate Big() {\n    signal input in;\n    signal output out;\n    var x = 1;\n");
+    for i in 0..n {
+        src.push_str(&format!("    x = x * {} + {};\n", i % 7 + 2, i % 5));
+    }
+    src.push_str("    out <== in * x;\n}\n");
+    std::fs::write(dir.join("big.circom"), &src).expect("write");
+    std::env::set_var("VERIF_CHILD_RUST_LOG", "debug");
+    let run = crate::sut::bin::run_bin(&crate::sut::bin::BinOpts {
+        args: vec!["big.circom".into()],
+        cwd: &dir,
+        hash_seed: Some(1),
+        timeout: std::time::Duration::from_secs(180),
+        sarif_file: None,
+        mem_limit: Some(8 << 30),
+    });
+    std::env::remove_var("VERIF_CHILD_RUST_LOG");
+    let fired = run.stderr.contains("within allotted time") || run.stdout.contains("within allotted time");
+    let mut out = Vec::new();
+    let ok = !run.timed_out && run.killed_by_signal.is_none() && !run.panicked() && matches!(run.exit, Some(0) | Some(1)) && run.summary.is_some();
+    if !ok {
+        out.push(Violation {
+            signature: format!("real-time-box/{}", if run.timed_out { "does-not-complete".to_string() } else { run.panic_signature().unwrap_or_else(|| format!("exit-{:?}", run.exit)) }),
+            what: format!("a template with {n} dependent assignments (propagation is cut short by the time box: {fired}) does not end normally"),
+            case: case.clone(),
+            expected: "exit status 0 or 1 after the summary line".into(),
+            observed: crate::infra::truncate(&run.stderr, 500),
+        });
+    }
+    let _ = std::fs::remove_dir_all(&dir);
+    (out, fired)
+}
+
 pub fn replay(case: &Value) -> Vec<Violation> {
+    if case["kind"].as_str() == Some("real-time-box") {
+        return check_real_time_box(case["statements"].as_u64().unwrap_or(6000) as usize, case).0;
+    }
     let (_, p) = real_primes().into_iter().next().unwrap();
     let field = Field::new(&p);
     let get = |k: &str| -> Vec<usize> {
